@@ -158,7 +158,12 @@ def call_sites(run: Run):
             found = True
             i = idx[0]
             call = _calls_macro(body[i], "auto_populate_uuid4_fields")
+            # positional or by keyword: bound to the macro's parameters (api, method) the way Jinja binds them
             args = [a.name if isinstance(a, nodes.Name) else None for a in call.args]
+            bound = dict(zip(["api", "method"], args))
+            for kw in call.kwargs:
+                bound[kw.key] = kw.value.name if isinstance(kw.value, nodes.Name) else None
+            args = [bound.get("api"), bound.get("method")] if set(bound) == {"api", "method"} and len(call.args) + len(call.kwargs) == 2 else args + ["?"]
             run.table(f"uuid4.callsite:{tname}:args-are-api-and-method", args == ["api", "method"], detail=str(args),
                       group="uuid4.callsite:args")
             before = body[:i]
